@@ -151,7 +151,7 @@ TEnq == /\ Is("fifo.enq") /\ Step
 TDel == /\ Is("fifo.del") /\ Step
         /\ LET cut == {k \in DOMAIN fifo[N] : k <= Ev.idx}
                lostg == {g \in UNION {Range(fifo[N][k]) : k \in cut} : Id(g) \notin DeliveredIds}
-               b1 == Flag(bad, Ev.idx \in hwmSeen[N] \cup bvals, "prune-not-to-a-high-water-mark")
+               b1 == Flag(bad, Ev.idx \in Plausible(N) \cup bvals, "prune-not-to-a-high-water-mark")
                b2 == Flag(b1, lostg = {}, "pruned-undelivered" \o Sfx(OnlyLater(lostg)))
            IN /\ bad' = b2
               /\ drops' = drops \cup {<<g[1], g[2], "lost:pruned-undelivered" \o Sfx(Later(g))>> : g \in lostg}
@@ -211,7 +211,8 @@ TOpen == /\ Is("cdc.open") /\ Step
          /\ hwm' = [hwm EXCEPT ![N] = Ev.hwm] /\ hwmSeen' = [hwmSeen EXCEPT ![N] = @ \cup {Ev.hwm}]
          /\ Frame({"bad", "hwm", "hwmSeen"})
 TBcast == /\ Is("cdc.bcast") /\ Step
-          /\ bad' = Flag(bad, Ev.v \in hwmSeen[N], "broadcast-not-own-hwm")
+          \* the HWM loop may read a value the leader loop has stored but not yet reported
+          /\ bad' = Flag(bad, Ev.v \in Plausible(N), "broadcast-not-own-hwm")
           /\ bvals' = bvals \cup {Ev.v}
           /\ Frame({"bad", "bvals"})
 
@@ -257,7 +258,9 @@ TSnap == /\ Is("c.snap") /\ Step
 TFinal == /\ Is("c.final") /\ Step
           /\ LET want == {<<Ev.groups[x][1], Ev.groups[x][2]>> : x \in 1..Len(Ev.groups)}
                  lost == want \ DeliveredIds
-                 held(x) == \E n \in Node : unsent[n] # <<>> /\ \E g \in Range(unsent[n][2]) : Id(g) = x
+                 \* a node that leads again, still holds the batch its earlier leader loop did not send, and never sent it
+                 held(x) == \E n \in lead : /\ unsent[n] # <<>> /\ unsent[n][1] > hwm[n]
+                                             /\ \E g \in Range(unsent[n][2]) : Id(g) = x
                  why(x) == {d[3] : d \in {y \in drops : y[1] = x[1] /\ y[2] = x[2]}}
                            \cup (IF held(x) THEN {"lost:unsent-batch-skipped"} ELSE {})
                  names == UNION {IF why(x) = {} THEN {"lost:unexplained"} ELSE why(x) : x \in lost}
